@@ -55,6 +55,13 @@ def run(rep, tier):
                 rep.ob("R1", name, "opmap:%s" % nm, False, expected=b, derived=a, where=where,
                        msg="opcode %s is %r in xdis's %s table, %r in CPython %s" % (nm, a, v, b, v))
         rep.ob("R1", name, "opmap", True, expected=len(refmap), derived=len(opmap))
+        # opname[] carries CPython's own spelling (e.g. SLICE+0); opmap keys may be normalised to identifiers
+        bad_sp = []
+        for nm_raw, num in sorted(ref["opmap"].items()):
+            if num < len(m.ns["opname"]) and m.ns["opname"][num] != nm_raw:
+                bad_sp.append((num, nm_raw, m.ns["opname"][num]))
+        rep.ob("R1", name, "opname-spelling", not bad_sp, expected="opname[n] is CPython's name for n", derived=bad_sp[:6] or "equal",
+               where=prov(m, "opname", bad_sp[0][0]) if bad_sp else None, msg="opname[] differs from CPython %s's: %s" % (v, bad_sp[:4]))
         for fld in ("HAVE_ARGUMENT", "EXTENDED_ARG"):
             rep.ob("R1", name, fld, m.ns.get(fld) == ref[fld], expected=ref[fld], derived=m.ns.get(fld), where=prov(m, fld, None))
         for cat in CATEGORIES:
